@@ -115,7 +115,11 @@ CONSERVATIVE = {"Advection", "Diffusion", "AdvectionDiffusion", "Dispersion", "H
 
 
 @lemma("C09.mean_is_conserved", {"C09"},
-       assumes=[A5 + " (rfftn at the mean mode is the sum over all points; for the non-conservative convection forms, 2D vorticity and 3D rotational convection the vanishing of the mean of the convective term is integration by parts -- assumed)", A7])
+       assumes=[A5 + " (rfftn at the mean mode is the sum over all points)",
+                "NOT DECIDED HERE, assumed: for the non-conservative convection forms, 2D vorticity convection and 3D rotational convection the mean of the convective term "
+                "vanishes by (discrete) integration by parts -- in 3D only for DIVERGENCE-FREE velocity fields: mean(u x curl u) = mean(u div u), and the Leray projection "
+                "leaves the mean mode untouched, so for a compressible initial state the mean of a 3D velocity Navier-Stokes step does move (observed natively; such states are "
+                "outside what the stepper documents as its input, and outside what this lemma covers)", A7])
 def _c09_mean(e):
     """(a) sigma_doc(0) = 0 for every conservation-form stepper (zero drag for Navier-Stokes); (b) the documented
     conservative nonlinear terms vanish at the mean mode for EVERY state; (c) then every ETDRK order returns
@@ -203,6 +207,26 @@ def _c09_fixed(e):
             e.prove(f"ETDRK{order}: the equilibrium is a fixed point", ceq(out, uu), kind="lemma")
         e.hyps.pop()
     canary(e, "ETDRK1 maps every state to itself", ceq(smt.cadd(smt.cmul(E, uu), smt.cmul(smt.cmul(dtc, SE.G["phi1"](z)), CX(R("n"), 0))), uu))
+
+
+@lemma("C09.mean_mode_reaches_the_nonlinear_term", {"C09"}, assumes=[])
+def _c09_mean_mode_retained(e):
+    """the fixed-point lemma above needs the nonlinear term of a CONSTANT state, i.e. the mean mode must survive the
+    dealiasing mask of the nonlinear function (post-condition of BaseNonlinearFun.__init__: |k|_inf <= f*(N//2) - 1).
+    For both documented fractions that is so on every grid with N >= 4 -- and it is NOT so for N in {1,2,3}: the mask
+    is empty there, the nonlinear term vanishes identically and e.g. FisherKPP's equilibrium u = 1 grows by e^(r dt)
+    (native witness in known_findings.json: finding F7).  The two ranges are separate obligations so that the listed
+    finding cannot hide a change that empties the band on a larger grid."""
+    N = SInt(z3.Int("N"))
+    for frac in (Fraction(2, 3), Fraction(1, 2)):
+        for D in (1, 2, 3):
+            mask = SN.base_fields(D, N, frac)["dealiasing_mask"]
+            at_mean = smt.z(mask.at_((0,) * (D + 1)))
+            e.prove(f"D={D}, fraction {frac}: the mean mode is retained by the dealiasing mask for every N >= 4",
+                    z3.Implies(N.t >= 4, at_mean), kind="lemma")
+            if D == 1:
+                e.prove(f"fraction {frac}: the mean mode is retained by the dealiasing mask on the grids 1 <= N <= 3",
+                        z3.Implies(z3.And(N.t >= 1, N.t <= 3), at_mean), kind="lemma")
 
 
 # ------------------------------------------------------------------------------------------ C12
